@@ -288,3 +288,73 @@ func (r *Runner) replayLiftLight(l *Line) lineResult {
 	}
 	return res
 }
+
+// replayPrefixRoots (family "prefixroots"): block histories with leaf values that share
+// their first 12 bytes, applied to the roots-only verifier, the pointer forest and the full
+// map forest; only leaf count and roots are compared.  The pointer forest keys its leaf index
+// by those 12 bytes - look-ups and proofs by hash are ambiguous there by design - but the
+// roots it computes for a block must not depend on that index.
+func (r *Runner) replayPrefixRoots(l *Line) lineResult {
+	steps := append(append([]Step{}, l.Hist...), l.Step)
+	for i := range steps {
+		if steps[i].A != "mod" || (steps[i].Enc != nil && steps[i].Enc.Kind != "canon") || len(steps[i].Lab) > 0 {
+			return lineResult{skipped: "not a pure block history"}
+		}
+	}
+	sy := NewSymb()
+	sy.prefix = true
+	res := lineResult{insts: 3, nontrivial: len(l.Step.D) > 0 || l.Step.K > 0}
+	fail := func(inst, cat, what string, exp, got any, step int) {
+		res.fails = append(res.fails, Fail{Props: []string{"C01", "C05"}, Inst: inst, Cat: cat, What: what + " [leaf values sharing their first 12 bytes]", Exp: exp, Got: got, Step: step})
+	}
+	var stump utreexo.Stump
+	pol := utreexo.NewAccumulator()
+	mf := newMap(true, 63)
+	n := uint64(0)
+	pan := protect(func() {
+		for si := range steps {
+			st := &steps[si]
+			R := treeRows(n)
+			dels := make([]Hash, len(st.D))
+			for i, s := range st.D {
+				dels[i] = sy.H(leafTerm(s))
+			}
+			tg := make([]uint64, len(st.Pf.T))
+			for i, t := range st.Pf.T {
+				tg[i] = enc(t.RI(), R)
+			}
+			proof := utreexo.Proof{Targets: tg, Proof: sy.Hs(st.Pf.P)}
+			adds := make([]Hash, st.K)
+			leaves := make([]utreexo.Leaf, st.K)
+			for i := range adds {
+				adds[i] = sy.H(leafTerm(int(n) + i))
+				leaves[i] = utreexo.Leaf{Hash: adds[i]}
+			}
+			sy.Hs(st.Post) // names the expected roots in the dictionary of this run
+			if _, err := stump.Update(dels, adds, proof); err != nil {
+				fail("stump", "error", "Stump.Update refused an honest block: "+err.Error(), nil, nil, si)
+				return
+			}
+			n += uint64(st.K)
+			res.calls += 3
+			for name, acc := range map[string]utreexo.Utreexo{"pollard": &pol, "map.full.63": mf} {
+				if err := acc.Modify(leaves, dels, proof); err != nil {
+					fail(name, "error", "Modify refused an honest block: "+err.Error(), nil, nil, si)
+					return
+				}
+				if got := sy.Ts(acc.GetRoots()); !eqStrs(got, st.Post) || acc.GetNumLeaves() != n {
+					fail(name, "roots", "roots / leaf count", []any{n, st.Post}, []any{acc.GetNumLeaves(), got}, si)
+					return
+				}
+			}
+			if got := sy.Ts(stump.Roots); !eqStrs(got, st.Post) {
+				fail("stump", "roots", "stump roots", st.Post, got, si)
+				return
+			}
+		}
+	})
+	if pan != "" {
+		fail("", "panic", "the library panicked: "+pan, nil, nil, len(steps)-1)
+	}
+	return res
+}
